@@ -211,7 +211,7 @@ def _no_swallow(check: Check, aa: AtomicAnalysis, ff: FuncFlow, fi):
     check.ob('R-ATOMIC.swallow', fi, f'except {txt(h.ast.type) if h.ast.type is not None else ""}', not bad,
              'an error while writing the temp file is caught and control can still reach the rename that publishes it (without '
              'the write having succeeded): a truncated file becomes the cache entry' if bad else
-             'every handled error either re-raises or repeats the guarded write before publishing', node=h.ast)
+             'every handled error either re-raises or repeats the guarded write before publishing', node=h.ast, exact=True)
 
 
 def _stream_decompressors(check: Check, aa: AtomicAnalysis, ff: FuncFlow, fi):
@@ -235,7 +235,7 @@ def _stream_decompressors(check: Check, aa: AtomicAnalysis, ff: FuncFlow, fi):
         ok = bool(checks) and all(any(ff.cfg.dominates(c, r) for c in checks) for r in renames)
         check.ob('R-ATOMIC.eof', fi, f'{name} = {txt(v)}', ok,
                  f'{txt(v.func)} silently accepts a truncated stream: `{name}.eof` must be tested (raising on failure) on every '
-                 f'path to the rename that publishes the decompressed file', node=v)
+                 f'path to the rename that publishes the decompressed file', node=v, exact=True)
 
 
 def _block_count(check: Check):
